@@ -1003,12 +1003,12 @@ func c08NonTrivialN(c c08Case, lateMin int) bool {
 
 func TestVerifC08(t *testing.T) {
 	small := kit.Class[c08Case]{
-		Name: "small-streams", Quick: 3000, Thorough: 200000,
+		Name: "small-streams", Quick: 9000, Thorough: 200000,
 		Gen: c08GenSmall, Check: c08Check, NonTrivial: c08NonTrivialSmall, MinNonTrivial: 800,
 		Rule: "same generator with 2-3 expressions and streams of 8-14 results (late key = first seen after >=3 results): many more expression sets, minimal witnesses",
 	}
 	kit.Run(t, "C08", small, kit.Class[c08Case]{
-		Name: "parse-orders-x-streams", Quick: 300, Thorough: 20000,
+		Name: "parse-orders-x-streams", Quick: 900, Thorough: 20000,
 		Gen: c08Gen, Check: c08Check, NonTrivial: c08NonTrivial, MinNonTrivial: 150,
 		Rule: "2-5 projection expressions over {.config,.fullname,.name,.file,/a,/b,/ab,/gomaxprocs,/size,k1..k6,\"a b\"} with first/alpha/num/fixed orders, " +
 			"one optionally parsed with ParseWithUnit, parsed by one ProjectionParser in EVERY permutation, plus Residue(); stream of 20-200 results " +
